@@ -18,6 +18,10 @@ def run(ctx):
         big = [j for j in jobs if len(j[1]) == 3][:8]
         jobs = sel + big
     fl.run_mixes(ctx, rp, jobs, max_paths=300 if ctx.quick else None)
+    # futures that are already resolved when the waiters arrive, built by operator<< / result_of from a function that returned a
+    # ready future (value, exception, dropped promise) or that threw: every kind of waiter must see "ready" and the result
+    for k, pre in enumerate(["exc_throw", "val", "drop", "exc"] if not ctx.quick else ["exc_throw", ["val", "drop", "exc"][ctx.seed % 3]]):
+        fl.run_mixes(ctx, rp, [([], ["co", "bl"]), ([], ["cb", "hv"])], max_paths=200 if ctx.quick else None, tagp="pre%d_" % k, pre=pre)
     # finest grain (FutureFine.tla): the thread-local code between two atomic operations is a step of its own, so a plain
     # access on the wrong side of an atomic operation (result stored after the resolving exchange, a node touched after its
     # waiter was released, ...) is exposed to the other threads; small mixes
